@@ -28,6 +28,16 @@ template <class T, int Id> struct user_acc {
   constexpr data_handle_type offset(data_handle_type p, size_t i) const noexcept { return p + i; }
 };
 
+// a user accessor whose copy operations may throw (mdspan's observers and swap are noexcept regardless)
+template <class T> struct throw_acc {
+  using offset_policy = throw_acc; using element_type = T; using reference = T &; using data_handle_type = T *;
+  explicit throw_acc(int) {}
+  throw_acc(const throw_acc &) {}
+  throw_acc &operator=(const throw_acc &) { return *this; }
+  reference access(data_handle_type p, size_t i) const noexcept { return p[i]; }
+  data_handle_type offset(data_handle_type p, size_t i) const noexcept { return p + i; }
+};
+
 template <class... Ts> struct voider { using type = void; };
 // m[args...] (multidimensional subscript) or m(args...)
 template <class, class M, class... Args> struct can_index_impl : std::false_type {};
